@@ -431,7 +431,7 @@ class T6(tr.T):
             if not (isinstance(recv, ast.Name) and recv.id == "np") and not n.keywords:
                 k = len(self.ctx.pending)
                 r, tr_ = self.e(recv)
-                if tr_ == STR and meth == "isdigit" and not n.args:
+                if tr_ == STR and meth in ("isdigit", "isdecimal") and not n.args:  # (the same on the documented ASCII-digit domain)
                     return f"(OQ.Py.isdigit {r})", BOOL
                 if tr_ == STR and meth == "split" and len(n.args) == 1 and isinstance(n.args[0], ast.Constant) \
                         and isinstance(n.args[0].value, str) and len(n.args[0].value) == 1:
